@@ -167,17 +167,20 @@ impl Numeric {
     }
 
     pub fn pow(&self, exp: i32) -> Numeric {
-        if exp < 0 {
-            &Numeric::one() / &self.pow(-exp)
-        } else {
-            match *self {
-                Numeric::Rational(ref value) => {
-                    let num = value.numer().pow(exp as u32);
-                    let den = value.denom().pow(exp as u32);
-                    Numeric::Rational(BigRat::ratio(&num, &den))
+        match *self {
+            Numeric::Rational(ref value) => {
+                // i32::MIN has no positive counterpart in i32
+                let abs = exp.unsigned_abs();
+                let num = value.numer().pow(abs);
+                let den = value.denom().pow(abs);
+                let res = Numeric::Rational(BigRat::ratio(&num, &den));
+                if exp < 0 {
+                    &Numeric::one() / &res
+                } else {
+                    res
                 }
-                Numeric::Float(value) => Numeric::Float(value.powi(exp)),
             }
+            Numeric::Float(value) => Numeric::Float(value.powi(exp)),
         }
     }
 }
